@@ -6,6 +6,7 @@ import vp_coq, vp_build
 import dynrf_cases as dc
 
 EPS = Fraction(1, 2 ** 24)
+HAVE_MODEL = [True]      # cleared when the extracted model could not be built: implementation-side oracles still run
 TINY = Fraction(1, 2 ** 120)
 
 
@@ -216,7 +217,9 @@ def run_sched(ctx, cases, dis):
     mt = []
     for c, seed, ops, data in cases:
         check_sched(ctx, c, seed, ops, data, res[c.cid], dis)
-        t = sched_model_text(c, res[c.cid], ops)
+        t = sched_model_text(c, res[c.cid], ops) if HAVE_MODEL[0] else ""
+        if t == "":
+            continue
         if t is None:
             dis.append(dict(case=dict(kind="sched", rf=c.describe(), seed=seed, ops=ops), detail="non-finite record in the queue",
                             sig=dict(kind="sched", stage="nonfinite", model=model_name(c))))
@@ -309,7 +312,7 @@ def run_calcmod(ctx, cases, dis):
     mt = {}
     for c, seed in cases:
         t = check_calcmod(ctx, c, seed, res[c.cid], dis)
-        if t:
+        if t and HAVE_MODEL[0]:
             mt[c.cid] = t
     mres = dc.run_model("".join(mt.values())) if mt else {}
     for c, seed in cases:
@@ -337,6 +340,8 @@ def stage_calckick(ctx, dis, count):
 
 
 def run_calckick(ctx, cases, dis):
+    if not HAVE_MODEL[0]:
+        return
     res = dc.run_impl(ctx, "".join(calckick_text(*t) for t in cases))
     mt = {}
     for c, phase, ampl in cases:
@@ -431,13 +436,15 @@ def stage_program(ctx, dis, count):
     for i, (lin, N, T, outstep, amp, fmod) in enumerate(cfgs):
         n = int(math.ceil(N * float(f32(T))))
         mtext += "mainsched p%d %d %d\n" % (i, outstep, n)
-    mops = dc.run_model(mtext)
-    mtext = ""
-    for i, (lin, N, T, outstep, amp, fmod) in enumerate(cfgs):
-        n = int(math.ceil(N * float(f32(T))))
-        ops = dc.toks(mops["p%d" % i], "ops")[0]
-        mtext += "sched p%d %d %s %s\n" % (i, n, " ".join("%x/1 1/1" % j for j in range(n)), ops)
-    mrec = dc.run_model(mtext)
+    mrec = {}
+    if HAVE_MODEL[0]:
+        mops = dc.run_model(mtext)
+        mtext = ""
+        for i, (lin, N, T, outstep, amp, fmod) in enumerate(cfgs):
+            n = int(math.ceil(N * float(f32(T))))
+            ops = dc.toks(mops["p%d" % i], "ops")[0]
+            mtext += "sched p%d %d %s %s\n" % (i, n, " ".join("%x/1 1/1" % j for j in range(n)), ops)
+        mrec = dc.run_model(mtext)
     for i, (lin, N, T, outstep, amp, fmod) in enumerate(cfgs):
         md = "linear" if lin else "sinusoidal"
         n = int(math.ceil(N * float(f32(T))))
@@ -451,15 +458,17 @@ def stage_program(ctx, dis, count):
         info, vals = h5rows(tg, out)
         dims = info.get("/RFKicks/data", {}).get("dims")
         # model: the records flushed by main()'s schedule
-        m = mrec["p%d" % i]
-        mflushed = [p for fl in m.get("F", []) for p in dc.pairs(fl)]
-        if [int(a.split("/")[0], 16) for a, _ in mflushed] != list(range(n)) or dc.toks(m, "past") != []:
-            dis.append(dict(case=case, detail="model: main schedule does not flush records 0..n-1", sig=dict(kind="program", stage="model")))
+        m = mrec.get("p%d" % i)
+        mflushed = None
+        if m is not None:
+            mflushed = [p for fl in m.get("F", []) for p in dc.pairs(fl)]
+            if [int(a.split("/")[0], 16) for a, _ in mflushed] != list(range(n)) or dc.toks(m, "past") != []:
+                dis.append(dict(case=case, detail="model: main schedule does not flush records 0..n-1", sig=dict(kind="program", stage="model")))
         if dims != [n, 2]:
             ctx.violation("impl-oracle", "/RFKicks/data has dims %s after %d executed steps (outstep %d)" % (dims, n, outstep), case=case,
                           observed=dims, expected=[n, 2], sig=dict(kind="program", clause="row-count", model=md))
             continue
-        if len(mflushed) != dims[0]:
+        if mflushed is not None and len(mflushed) != dims[0]:
             dis.append(dict(case=case, detail=dict(model_rows=len(mflushed), impl_rows=dims[0]), sig=dict(kind="program", stage="correspondence")))
         rows = dc.pairs(vals)
         ph0 = parse_c(rows[0][0])
@@ -519,15 +528,14 @@ def run(ctx):
     except Exception as e:
         ctx.notes.append("constructor model could not be evaluated: %s" % str(e)[-300:])
     q = ctx.quick()
-    stage_dynstat(ctx, cm, dis, 72 if q else 1200)
-    have_model = os.path.exists(vp_coq.model_path("dynrf")) and coq["extract_ok"]
-    if have_model:
-        stage_sched(ctx, dis, 80 if q else 1500)
-        stage_calcmod(ctx, dis, 40 if q else 600)
-        stage_calckick(ctx, dis, 40 if q else 600)
-        stage_program(ctx, dis, 14 if q else 70)
-    else:
-        ctx.notes.append("model driver unavailable: model-vs-implementation stages skipped")
+    stage_dynstat(ctx, cm, dis, 180 if q else 3000)
+    HAVE_MODEL[0] = bool(os.path.exists(vp_coq.model_path("dynrf")) and coq["extract_ok"])
+    if not HAVE_MODEL[0]:
+        ctx.notes.append("model driver unavailable: model-vs-implementation comparisons skipped, implementation-side oracles still run")
+    stage_sched(ctx, dis, 240 if q else 6000)
+    stage_calcmod(ctx, dis, 120 if q else 3000)
+    stage_calckick(ctx, dis, 120 if q else 3000)
+    stage_program(ctx, dis, 21 if q else 140)
     ctx.extra["correspondence_disagreements"] = len(dis)
     ctx.assumptions += ["exact-arithmetic model (DESIGN 3); tan/sin/sqrt/asin are abstract in the theorems, libm values are supplied to the extracted model",
                         "overload resolution modelled by arity; agreement with clang's resolution is part of the checked obligation",
@@ -545,6 +553,7 @@ def replay(ctx, rp):
     case = rp.get("case") or {}
     kind = case.get("kind")
     coq = vp_coq.full_check("C19", ctx, fams=("dynrf",))
+    HAVE_MODEL[0] = bool(os.path.exists(vp_coq.model_path("dynrf")) and coq["extract_ok"])
     dis = []
     if kind == "dynstat":
         c = _rf(case["rf"])
